@@ -107,6 +107,9 @@ func c09Run(c *vcore.Ctx) *vcore.Violation {
 	switch {
 	case how < 5:
 		code = src.Int(256, "code")
+		if src.Bool(1, 4, "exit_zero") {
+			code = 0 // the most common ending of all deserves more than 1/256 of the exits
+		}
 		script = append(script, "exit", fmt.Sprint(code))
 	case how < 9 && !inPidNs:
 		for {
